@@ -665,6 +665,13 @@ def call(f, args=(), kws=()):
             b = r[2][0][2][0]
             if b == a or (a[0] == 'sub' and a[1] == b and a[2][0] == 'c'):
                 return ('call', G('$positions'), (a,), ())
+    # a call through a conditional callee distributes:  (f if c else g)(x)  is  f(x) if c else g(x)
+    if f[0] == 'ite' and f[2][0] in ('g', 'fn') and f[3][0] in ('g', 'fn', 'ite'):
+        return ite(f[1], call(f[2], args, kws), call(f[3], args, kws))
+    # list(d.keys()) is list(d): iterating a mapping is iterating its keys
+    if f in (G('list'), G('sorted'), G('set'), G('tuple')) and nokw and len(args) == 1 and args[0][0] == 'call' \
+            and args[0][1][0] == 'attr' and args[0][1][2] == 'keys' and not args[0][2] and not args[0][3]:
+        args = (args[0][1][1],)
     # functools.reduce(f, iter(xs), init) folds xs  (a bare `reduce` is functools.reduce: Python 3 has no other)
     if f == G('reduce'):
         f = G('functools.reduce')
